@@ -2,6 +2,8 @@
    Property theorems only; proofs are in coq/proofs. *)
 From BW Require Import SpecKeys SpecBlocks.
 From BWP Require Import TextFacts Pos_proofs Comment_proofs Keys_proofs Range_proofs.
+From BW Require Import Lang SpecBlocks.
+From BWP Require Import Scope_proofs.
 
 (* Tag ranges: the position computed for the tag's '<' (and, at offset hi-1, its
    '>') is the position reached by walking that many bytes of the comment from
@@ -53,3 +55,19 @@ Theorem C10_key_range_exact_gen : forall pre content post k b code sev data l,
   text_at file (d_sl d) (d_sc d) (d_ec d) = Some (k_val k).
 Proof. exact key_range_exact_gen. Qed.
 Print Assumptions C10_key_range_exact_gen.
+
+(* For every registered language: walking the normalised comment text gives the same positions as walking the raw text. *)
+Theorem C10_every_language_keeps_positions : forall fam raw g t n p0,
+  normalise (kind_of fam raw g) raw = Ok (Some t) ->
+  (exists pre post, raw = pre ++ post /\ blen pre = n) ->
+  (exists pre post, t = pre ++ post /\ blen pre = n) ->
+  advance t n p0 = advance raw n p0.
+Proof. exact registered_normalisers_keep_positions. Qed.
+Print Assumptions C10_every_language_keeps_positions.
+
+(* The normaliser a language applies preserves the byte shape (lengths and line breaks) of the comment. *)
+Theorem C10_every_language_keeps_shape : forall fam raw g t,
+  normalise (kind_of fam raw g) raw = Ok (Some t) ->
+  byte_shape t = byte_shape raw /\ blen t = blen raw.
+Proof. exact registered_normalisers_keep_shape. Qed.
+Print Assumptions C10_every_language_keeps_shape.
